@@ -250,8 +250,12 @@ def known_findings(prop):
             l = l.strip()
             if l.startswith('finding:') and f'property={prop} ' in l + ' ':
                 m = re.search(r'id=(\S+)', l)
+                # the signature ends at a trailing `  # comment` or ` case=<file>` annotation
                 sig = re.search(r'signature=(.*)$', l)
-                out.append({'id': m.group(1) if m else '?', 'signature': sig.group(1).strip() if sig else '', 'line': l})
+                sg = sig.group(1) if sig else ''
+                sg = re.split(r'\s+#\s', sg)[0]
+                sg = re.split(r'\s+case=', sg)[0]
+                out.append({'id': m.group(1) if m else '?', 'signature': sg.strip(), 'line': l})
     return out
 
 
